@@ -349,7 +349,7 @@ func (in *c06Interp) exec(line string) string {
 // ---- generators ----
 
 type c06Gen struct {
-	rng *zz.RNG
+	rng   *zz.RNG
 	ops   []string
 	seq   uint64
 	ncase int // tag on the get lines, so that equal reads of different cases are distinct op lines
@@ -628,7 +628,7 @@ func c06SearchTotal(rng *zz.RNG, n int, target int) []c06Entry {
 			d := t - target
 			k := 1
 			if d > 8 || d < -8 {
-				k = abs(d)/2 + 1
+				k = c06Abs(d)/2 + 1
 			}
 			for ; k > 0; k-- {
 				v := field(&es[rng.Intn(n)], rng.Intn(3))
@@ -645,7 +645,7 @@ func c06SearchTotal(rng *zz.RNG, n int, target int) []c06Entry {
 	return nil
 }
 
-func abs(x int) int {
+func c06Abs(x int) int {
 	if x < 0 {
 		return -x
 	}
